@@ -120,7 +120,7 @@ const (
 	UrlEnc     = "url-enc"
 	UrlEncFull = "url-encfull"
 	UrlEncName = "url-encname" // the parameter's NAME needs percent-encoding as well: 名字[k]=v travels as %E5%90%8D%E5%AD%97%5Bk%5D=v
-	UrlPtr     = "url-ptr" // *string input
+	UrlPtr     = "url-ptr"     // *string input
 	// StructCtx: the ruled field F in the middle of a struct with neighbours of other kinds —
 	// struct{ T0 time.Time; B string; F T; T1 *time.Time; C uint8; T2 time.Time; G T } (G carries the
 	// same rule and value as F). Whatever the neighbours are, F and G are judged by their own values.
